@@ -1,11 +1,14 @@
 (* Property C08 - Sun/Earth positions agree across frames; obliquity and nutation are sane.
-   Statements only; proofs are in C08_base.v, C08_obliquity.v, C08_sun.v, C08_j2000.v.  All theorems are about
+   Statements only; proofs are in C08_base.v, C08_obliquity.v, C08_sun.v, C08_j2000.v, C08_angle2.v,
+   C08_frames.v, C08_equinox.v, C08_coarse.v, C08_node.v.  All theorems are about
    the real-number (ideal) instance Rops of the model regenerated from /repo on every run.
    ang d = the Angle object holding d degrees; an Epoch object is VObj cEpoch [VFloat jde]. *)
 From Coq Require Import Reals ZArith List Bool Lra.
 From PyLib Require Import PyVal PyBuiltins Ideal.
 From Gen Require Import M_base M_Angle M_Epoch M_Interpolation M_Coordinates M_Earth M_Sun.
 From Proofs.C08 Require Import C08_base C08_obliquity C08_sun C08_j2000.
+From Proofs.C08 Require C08_angle2 C08_frames C08_equinox C08_coarse C08_node.
+From Gen Require Import M_Moon.
 Import ListNotations.
 Open Scope R_scope.
 
@@ -77,6 +80,122 @@ Theorem C08_rectangular_j2000_norm : forall jde L B R,
     Rabs ((x * x + y * y + z * z) - R * R) <= 2 / 1000000000000 * (R * R).
 Proof. exact sun_rect_j2000_norm. Qed.
 
+(* ------------------------------------------------------------------------------------------
+   Closed forms of the frame functions and of the coarse solar formulas (round 2).
+   red360 = the Angle class's reduction to (-360, 360), pos360 = to_positive (Spec.AngleSpec);
+   Rlit m e = the decimal literal m * 10^e of the source. *)
+
+(* J2000: spherical vector of (lon + 180, -lat, r) of the J2000 VSOP87 callee, times the FK5 matrix
+   with the literal constants *)
+Theorem C08_rectangular_j2000_closed_form : forall jde L B R,
+  -360 < L < 360 -> -360 < B < 360 ->
+  Earth_geometric_heliocentric_position_j2000 Rops (epoch jde) (VBool true) = VTuple [ang L; ang B; VFloat R] ->
+  Sun_rectangular_coordinates_j2000 Rops (epoch jde) =
+  VTuple [VFloat (C08_frames.j2000_x (C08_frames.sx L B R) (C08_frames.sy L B R) (C08_frames.sz L B R));
+          VFloat (C08_frames.j2000_y (C08_frames.sx L B R) (C08_frames.sy L B R) (C08_frames.sz L B R));
+          VFloat (C08_frames.j2000_z (C08_frames.sx L B R) (C08_frames.sy L B R) (C08_frames.sz L B R))].
+Proof. exact C08_frames.sun_rect_j2000_closed. Qed.
+
+(* B1950 as generated: x1 = row1 . (x,y,z), y1 = row2 . (x1,y,z), z1 = row3 . (x1,y1,z) *)
+Theorem C08_rectangular_b1950_closed_form : forall jde L B R,
+  -360 < L < 360 -> -360 < B < 360 ->
+  Earth_geometric_heliocentric_position_j2000 Rops (epoch jde) (VBool true) = VTuple [ang L; ang B; VFloat R] ->
+  Sun_rectangular_coordinates_b1950 Rops (epoch jde) =
+  VTuple [VFloat (C08_frames.b1950_x (C08_frames.sx L B R) (C08_frames.sy L B R) (C08_frames.sz L B R));
+          VFloat (C08_frames.b1950_y (C08_frames.sx L B R) (C08_frames.sy L B R) (C08_frames.sz L B R));
+          VFloat (C08_frames.b1950_z (C08_frames.sx L B R) (C08_frames.sy L B R) (C08_frames.sz L B R))].
+Proof. exact C08_frames.sun_rect_b1950_closed. Qed.
+
+(* the clause "B1950 coordinates have norm r (to 1e-7)" for that body, and its refutation
+   (known finding norm-b1950 / frame-b1950): witness lon = 90, lat = 0, r = 1 *)
+Definition C08_b1950_norm_full : Prop := C08_frames.b1950_norm_full.
+Theorem C08_b1950_refuted : ~ C08_b1950_norm_full.
+Proof. exact C08_frames.b1950_norm_refuted. Qed.
+
+(* arbitrary equinox: rotation by zeta, z, theta of the J2000 vector, the three polynomials evaluated
+   with t = (equinox - J2000)/36525 and T = tt = (epoch - equinox)/36525 *)
+Theorem C08_rectangular_equinox_closed_form : forall jde jq x0 y0 z0,
+  2451545 - 110000 <= jq <= 2451545 + 110000 -> 2000000 <= jde <= 2900000 ->
+  Sun_rectangular_coordinates_j2000 Rops (epoch jde) = VTuple [VFloat x0; VFloat y0; VFloat z0] ->
+  let t := C08_equinox.t_c jq in let tt := C08_equinox.tt_c jde jq in
+  let ze := C08_equinox.rad (C08_equinox.zeta_c t tt / 3600) in
+  let zz := C08_equinox.rad (C08_equinox.z_c t tt / 3600) in
+  let th := C08_equinox.rad (C08_equinox.theta_c t tt / 3600) in
+  Sun_rectangular_coordinates_equinox Rops (epoch jde) (epoch jq) =
+  VTuple [VFloat (C08_equinox.rot_x ze zz th x0 y0 z0); VFloat (C08_equinox.rot_y ze zz th x0 y0 z0);
+          VFloat (C08_equinox.rot_z ze zz th x0 y0 z0)].
+Proof. intros jde jq x0 y0 z0 Hq Hj H. exact (C08_equinox.sun_rect_equinox_closed jde jq x0 y0 z0 Hq Hj H). Qed.
+
+(* the polynomials with the constants of Meeus (21.2) *)
+Theorem C08_equinox_angles : forall t tt,
+  C08_equinox.zeta_c t tt =
+    t * (2306.2181 + tt * (1.39656 - 0.000139 * tt) + t * (0.30188 - 0.000344 * tt + 0.017998 * t)) /\
+  C08_equinox.z_c t tt =
+    t * (2306.2181 + tt * (1.39656 - 0.000139 * tt) + t * (1.09468 + 0.000066 * tt + 0.018203 * t)) /\
+  C08_equinox.theta_c t tt =
+    t * (2004.3109 + tt * (-0.85330 - 0.000217 * tt) + t * (- (0.42665 + 0.000217 * tt) - 0.041833 * t)).
+Proof. intros t tt. exact (conj (C08_equinox.zeta_c_eq t tt) (conj (C08_equinox.z_c_eq t tt) (C08_equinox.theta_c_eq t tt))). Qed.
+
+(* the rotation is exactly orthogonal: the equinox coordinates have the norm of the J2000 ones *)
+Theorem C08_rectangular_equinox_norm : forall ze z th x0 y0 z0,
+  C08_equinox.rot_x ze z th x0 y0 z0 * C08_equinox.rot_x ze z th x0 y0 z0
+  + C08_equinox.rot_y ze z th x0 y0 z0 * C08_equinox.rot_y ze z th x0 y0 z0
+  + C08_equinox.rot_z ze z th x0 y0 z0 * C08_equinox.rot_z ze z th x0 y0 z0
+  = x0 * x0 + y0 * y0 + z0 * z0.
+Proof. exact C08_equinox.rot_norm. Qed.
+
+(* "zeta is Meeus (21.2) started at J2000.0, i.e. T = 0" - refuted (known finding frame-equinox):
+   the generated zeta depends on tt; at t = 3, tt = -13 it is more than 54 arcsec off *)
+Definition C08_equinox_T_full : Prop := C08_equinox.equinox_T_full.
+Theorem C08_equinox_T_refuted : ~ C08_equinox_T_full.
+Proof. exact C08_equinox.equinox_T_refuted. Qed.
+
+(* coarse true longitude and radius vector: explicit polynomials + equation of the centre, for
+   epochs within 10 centuries of J2000.0 *)
+Theorem C08_true_longitude_coarse_closed_form : forall jde,
+  -10 <= C08_coarse.tc jde <= 10 ->
+  Sun_true_longitude_coarse Rops (epoch jde) =
+  VTuple [ang (C08_coarse.true_lon_c (C08_coarse.tc jde)); VFloat (C08_coarse.radius_c (C08_coarse.tc jde))].
+Proof. exact C08_coarse.true_longitude_coarse_closed. Qed.
+
+(* the constants of those polynomials *)
+Theorem C08_coarse_constants : forall jde t m,
+  C08_coarse.tc jde = (jde - 2451545) / 36525 /\
+  C08_coarse.L0c t = 280.46646 + t * (36000.76983 + t * 0.0003032) /\
+  C08_coarse.Mc t = 357.52911 + t * (35999.05029 - t * 0.0001537) /\
+  C08_coarse.ec t = 0.016708634 - t * (0.000042037 + t * 0.0000001267) /\
+  C08_coarse.Cc t m = (1.914602 - t * (0.004817 + t * 0.000014)) * sin m
+                      + (0.019993 - t * 0.000101) * sin (2 * m) + 0.000289 * sin (3 * m) /\
+  C08_coarse.omega_c t = C08_angle2.red360 (125.04 - 1934.136 * t).
+Proof.
+  intros jde t m.
+  exact (conj (C08_coarse.tc_eq jde) (conj (C08_coarse.L0c_eq t) (conj (C08_coarse.Mc_eq t)
+        (conj (C08_coarse.ec_eq t) (conj (C08_coarse.Cc_eq t m) (C08_coarse.omega_c_eq t)))))).
+Qed.
+
+(* coarse apparent longitude = true longitude - 0.00569 - 0.00478 sin(Omega), each step reduced *)
+Theorem C08_apparent_longitude_coarse_closed_form : forall jde tl r,
+  Sun_true_longitude_coarse Rops (epoch jde) = VTuple [ang tl; VFloat r] ->
+  Sun_apparent_longitude_coarse Rops (epoch jde) =
+  VTuple [ang (C08_coarse.app_lon_c (C08_coarse.tc jde) tl); VFloat r].
+Proof. exact C08_coarse.apparent_longitude_coarse_closed. Qed.
+
+(* Moon.longitude_mean_ascending_node: the node polynomial of the Moon module, reduced and made positive *)
+Theorem C08_moon_node_closed_form : forall jde,
+  Moon_longitude_mean_ascending_node Rops (epoch jde) =
+  ang (C08_angle2.pos360 (C08_angle2.red360 (C08_node.node_moon (C08_node.tc jde)))).
+Proof. exact C08_node.moon_node_closed. Qed.
+
+Theorem C08_moon_node_constants : forall t, C08_node.node_moon t =
+  125.0445479 + (-1934.1362891 + (0.0020754 + (1 / 476441 - t / 60616000) * t) * t) * t.
+Proof. exact C08_node.node_moon_eq. Qed.
+
+(* the node polynomial written inside the nutation functions agrees with the Moon module's to
+   0.0024 degree within 20 centuries of J2000.0 *)
+Theorem C08_node_agreement : forall t, -20 <= t <= 20 ->
+  Rabs ((125.04452 + t * (-1934.136261 + t * (0.0020708 + t / 450000))) - C08_node.node_moon t) <= 24 / 10000.
+Proof. exact C08_node.node_agreement. Qed.
+
 Redirect "C08_rectangular_j2000_norm.assumptions" Print Assumptions C08_rectangular_j2000_norm.
 Redirect "C08_mean_obliquity_polynomial.assumptions" Print Assumptions C08_mean_obliquity_polynomial.
 Redirect "C08_mean_obliquity_vs_IAU.assumptions" Print Assumptions C08_mean_obliquity_vs_IAU.
@@ -86,3 +205,16 @@ Redirect "C08_sun_apparent_is_earth_reflected.assumptions" Print Assumptions C08
 Redirect "C08_reflected_longitude.assumptions" Print Assumptions C08_reflected_longitude.
 Redirect "C08_rectangular_of_date_norm.assumptions" Print Assumptions C08_rectangular_of_date_norm.
 Redirect "C08_latitude_term_small.assumptions" Print Assumptions C08_latitude_term_small.
+Redirect "C08_rectangular_j2000_closed_form.assumptions" Print Assumptions C08_rectangular_j2000_closed_form.
+Redirect "C08_rectangular_b1950_closed_form.assumptions" Print Assumptions C08_rectangular_b1950_closed_form.
+Redirect "C08_b1950_refuted.assumptions" Print Assumptions C08_b1950_refuted.
+Redirect "C08_rectangular_equinox_closed_form.assumptions" Print Assumptions C08_rectangular_equinox_closed_form.
+Redirect "C08_equinox_angles.assumptions" Print Assumptions C08_equinox_angles.
+Redirect "C08_rectangular_equinox_norm.assumptions" Print Assumptions C08_rectangular_equinox_norm.
+Redirect "C08_equinox_T_refuted.assumptions" Print Assumptions C08_equinox_T_refuted.
+Redirect "C08_true_longitude_coarse_closed_form.assumptions" Print Assumptions C08_true_longitude_coarse_closed_form.
+Redirect "C08_coarse_constants.assumptions" Print Assumptions C08_coarse_constants.
+Redirect "C08_apparent_longitude_coarse_closed_form.assumptions" Print Assumptions C08_apparent_longitude_coarse_closed_form.
+Redirect "C08_moon_node_closed_form.assumptions" Print Assumptions C08_moon_node_closed_form.
+Redirect "C08_moon_node_constants.assumptions" Print Assumptions C08_moon_node_constants.
+Redirect "C08_node_agreement.assumptions" Print Assumptions C08_node_agreement.
